@@ -97,6 +97,8 @@ type OpsResult struct {
 	Results []*spb.AFTResult
 	// Responses is the number of ModifyResponses read (barrier excluded).
 	Responses int
+	// PerResponse holds the results of each ModifyResponse read, in order (barrier excluded).
+	PerResponse [][]*spb.AFTResult
 	// Other lists non-result responses seen (election / params), which must not occur.
 	Other []*spb.ModifyResponse
 	// RPCErr is set when the RPC ended before the barrier was answered (io.EOF = clean end).
@@ -134,6 +136,7 @@ func (s *Session) Ops(ops []*spb.AFTOperation, barrierElec *spb.Uint128) *OpsRes
 			continue
 		}
 		isBarrier := false
+		var mine []*spb.AFTResult
 		for _, res := range r.GetResult() {
 			if res.GetId() == b.Id {
 				isBarrier = true
@@ -141,10 +144,15 @@ func (s *Session) Ops(ops []*spb.AFTOperation, barrierElec *spb.Uint128) *OpsRes
 				continue
 			}
 			out.Results = append(out.Results, res)
+			mine = append(mine, res)
 		}
 		if isBarrier {
+			if len(mine) > 0 {
+				out.PerResponse = append(out.PerResponse, mine)
+			}
 			return out
 		}
+		out.PerResponse = append(out.PerResponse, mine)
 		out.Responses++
 		if !wrote {
 			// barrier could not be written: the RPC is ending; keep reading until it does
